@@ -372,7 +372,95 @@ func init() {
 
 // useAfterRegistration: after further component types were registered, an entity in a
 // new archetype is created and read through mappers that existed before (C18 reg.capacity).
+// lateType (wave 13, C18-l): a component type registered when the world already has relation tables (more
+// tables than archetypes) or freed tables is usable: an entity created with it is readable and writable.
+// Runs in a world of its own, shaped by the op's numbers, so the simulated world's history is not disturbed.
+type lateT struct{ V uint8 }
+
+func (s *Sim) lateType(op *Op) {
+	rel := -1
+	for t := 0; t < NumTypes; t++ {
+		if U[t].IsRel {
+			rel = t
+			break
+		}
+	}
+	if rel < 0 {
+		return
+	}
+	s.C.Checks["reg.capacity.late_type"]++
+	nt, early := abs(op.N)%5, abs(op.N/5)%4
+	p, val := s.call(func() {
+		w := ecs.NewWorld(2)
+		u := w.Unsafe()
+		relID := ecs.TypeID(w, U[rel].Type)
+		for i := 0; i < early; i++ {
+			ecs.TypeID(w, PadType(300+i))
+		}
+		var targets []ecs.Entity
+		for i := 0; i < nt; i++ {
+			targets = append(targets, u.NewEntity())
+		}
+		var kids []ecs.Entity
+		for _, t := range targets {
+			kids = append(kids, u.NewEntityRel([]ecs.ID{relID}, ecs.RelID(relID, t)))
+		}
+		if nt > 2 && op.N%2 == 0 {
+			// a freed table: the only child of the first target goes away with its target
+			w.RemoveEntity(kids[0])
+			w.RemoveEntity(targets[0])
+			kids, targets = kids[1:], targets[1:]
+		}
+		late := ecs.TypeID(w, PadType(8+abs(op.N)%3))
+		e := u.NewEntity(late)
+		ptr := (*uint8)(u.Get(e, late))
+		*ptr = 0xA5
+		for i, k := range kids {
+			if u.Has(k, late) {
+				panic(fmt.Sprintf("child %d has the late type", i))
+			}
+			if got := u.GetRelation(k, relID); got != targets[i] {
+				panic(fmt.Sprintf("child %d has target %v, expected %v", i, got, targets[i]))
+			}
+			u.Add(k, late)
+			*(*uint8)(u.Get(k, late)) = uint8(i + 1)
+		}
+		for i, k := range kids {
+			if got := *(*uint8)(u.Get(k, late)); got != uint8(i+1) {
+				panic(fmt.Sprintf("child %d reads %d from the late type, wrote %d", i, got, i+1))
+			}
+		}
+		if got := *(*uint8)(u.Get(e, late)); got != 0xA5 {
+			panic(fmt.Sprintf("entity reads %#x from the late type, wrote 0xa5", got))
+		}
+		// the same through the typed mappers, which resolve columns through the storage's per-component lookup
+		m1 := ecs.NewMap1[lateT](w)
+		e1 := m1.NewEntity(&lateT{V: 0x5A})
+		if v := m1.Get(e1); v == nil || v.V != 0x5A {
+			panic(fmt.Sprintf("Map1.Get of the late typed component gives %v", v))
+		}
+		if v := ecs.NewMap[lateT](w).Get(e1); v == nil || v.V != 0x5A {
+			panic(fmt.Sprintf("Map.Get of the late typed component gives %v", v))
+		}
+		for i, k := range kids {
+			m1.Add(k, &lateT{V: uint8(i + 9)})
+		}
+		for i, k := range kids {
+			if v := m1.Get(k); v.V != uint8(i+9) {
+				panic(fmt.Sprintf("child %d reads %d from the late typed component, wrote %d", i, v.V, i+9))
+			}
+		}
+	})
+	if p {
+		s.violate("C18", "reg.capacity", "late_type", true, "a component type registered after %d relation tables existed cannot be used: %v", nt, val)
+	}
+}
+
 func (s *Sim) useAfterRegistration(tmax int, op *Op) {
+	s.lateType(op)
+	if s.fatal {
+		return
+	}
 	cs := []int{tmax}
 	other := abs(op.N+7) % NumTypes
 	if other != tmax && !U[other].IsRel && !U[tmax].IsRel {
